@@ -60,6 +60,8 @@ class LiveTarget(object):
                     self.disk[lba + i] = bytes(dataout[i * self.bs:(i + 1) * self.bs])
             else:
                 blk = bytes(self.bs) if (op == 0x93 and cdb[1] & 1) else bytes(dataout[:self.bs])
+                if n == 0 and self.cap < 16:
+                    n = self.cap + 1 - lba        # NUMBER OF LOGICAL BLOCKS 0: to the end of the medium (small media only)
                 for i in range(n):
                     self.disk[lba + i] = blk
         elif op == 0x25:
@@ -176,12 +178,12 @@ def composed(chk, fs):
     r = tlc.run("Initiator", icfg, workers=16, timeout=1200, name="c12init")
     if not r.ok:
         raise tlc.TLCFailure("Initiator.tla violated %s\n%s" % (r.violated, r.counterexample[:1500]))
-    ev.tlc("Initiator/%s (exhaustive, %d steps)" % (icfg, 4 if chk.quick else 5), r)
+    ev.tlc("Initiator/%s (exhaustive, %d steps)" % (icfg, 3 if chk.quick else 4), r)
     short = [v for t, v in r.prints if t == "BEHAVIOUR"]
     rng = random.Random(chk.seed)
     behaviours = rng.sample(short, min(len(short), 300 if chk.quick else 20000))
     for cfg in ("Sim_Initiator_on.cfg", "Sim_Initiator_off.cfg", "Sim_Initiator_iscsi.cfg"):
-        rs = tlc.run("Initiator", cfg, workers=1, timeout=600, name="c12sim", simulate="num=%d" % (60 if chk.quick else 5000),
+        rs = tlc.run("Initiator", cfg, workers=1, timeout=600, name="c12sim", simulate="num=%d" % (150 if chk.quick else 15000),
                      extra=["-depth", "30", "-seed", str(chk.seed + 11)])
         if rs.violated:
             raise tlc.TLCFailure("Initiator.tla (simulation) violated %s" % rs.violated)
@@ -201,6 +203,15 @@ def composed(chk, fs):
         os.rename(tmp, path)
     sense = bytes([0x70, 0, 5, 0, 0, 0, 0, 10, 0, 0, 0, 0, 0x24, 0, 0, 0, 0, 0])
     steps = 0
+    ofail = {"next": False}
+    import builtins
+
+    def opening(path_, mode="r", buffering=-1, *a_, **k_):
+        if ofail["next"]:
+            ofail["next"] = False
+            raise PermissionError(13, "Permission denied (injected on open)")
+        return builtins.open(path_, mode, buffering=buffering)
+    sd.open = opening
     try:
         for b in behaviours:
             if os.path.exists(path):
@@ -208,6 +219,7 @@ def composed(chk, fs):
             new_node()
             live = LiveTarget(1, 1)
             live.disk = {0: b"\0", 1: b"\0"}
+            ofail["next"] = False
             st = {"fault": None}
 
             def target(cdb, dataout, datain, live=live, st=st):
@@ -231,6 +243,8 @@ def composed(chk, fs):
                         facade.write10(s_["lba"], 1, bytearray([s_["val"]]))
                     elif a == "zero":
                         facade.writesame16(s_["lba"], 1, None, ndob=1)
+                    elif a == "fill":
+                        facade.writesame10(s_["lba"], 0, bytearray([s_["val"]]))
                     elif a == "read":
                         data = facade.read10(s_["lba"], 1).datain[0]
                     elif a == "reread":
@@ -249,6 +263,8 @@ def composed(chk, fs):
                         new_node()
                     elif a == "arm":
                         st["fault"] = s_["val"]
+                    elif a == "armopen":
+                        ofail["next"] = True
                 except Exception as ex:
                     out = type(ex).__name__
                 steps += 1
@@ -264,6 +280,10 @@ def composed(chk, fs):
                 pass
             ev.case(("behaviour", json_key(b)))
     finally:
+        try:
+            del sd.open
+        except Exception:
+            pass
         for f in os.listdir(d):
             os.unlink(os.path.join(d, f))
         os.rmdir(d)
